@@ -270,11 +270,15 @@ type Ctx struct {
 	lines  []string // declarations, definitions and asserted facts, in order
 	nfresh int
 	decl   map[string]bool
+	quant  int // > 0 while a term under a quantifier is being built: nothing mentioning bound variables may be emitted
 }
 
 func NewCtx() *Ctx { return &Ctx{decl: map[string]bool{}} }
 
 func (c *Ctx) Fresh(prefix string, sort Sort) Term {
+	if c.quant > 0 {
+		panic("a fresh value (opaque call result / allocation) is needed under a quantifier")
+	}
 	c.nfresh++
 	name := smtIdent(fmt.Sprintf("%s!%d", prefix, c.nfresh))
 	c.lines = append(c.lines, fmt.Sprintf("(declare-const %s %s)", name, sort))
@@ -296,6 +300,9 @@ func (c *Ctx) Define(prefix string, t Term) Term {
 	if len(t.S) < 24 && !strings.Contains(t.S, " ") {
 		return t
 	}
+	if c.quant > 0 {
+		return t
+	}
 	c.nfresh++
 	name := smtIdent(fmt.Sprintf("%s!%d", prefix, c.nfresh))
 	c.lines = append(c.lines, fmt.Sprintf("(define-fun %s () %s %s)", name, t.Sort, t.S))
@@ -315,9 +322,17 @@ func (c *Ctx) DeclFun(name string, args []Sort, res Sort) string {
 	return id
 }
 
-func (c *Ctx) Raw(line string) { c.lines = append(c.lines, line) }
+func (c *Ctx) Raw(line string) {
+	if c.quant > 0 && strings.Contains(line, "|q!") {
+		return
+	}
+	c.lines = append(c.lines, line)
+}
 
 func (c *Ctx) RawOnce(key, line string) {
+	if c.quant > 0 && strings.Contains(line, "|q!") {
+		return
+	}
 	if !c.decl[key] {
 		c.decl[key] = true
 		c.lines = append(c.lines, line)
@@ -327,6 +342,9 @@ func (c *Ctx) RawOnce(key, line string) {
 func (c *Ctx) Assert(t Term) {
 	if t.S == "true" {
 		return
+	}
+	if c.quant > 0 {
+		return // facts about terms under a binder are dropped (weaker assumptions: sound)
 	}
 	c.lines = append(c.lines, "(assert "+t.S+")")
 }
